@@ -81,7 +81,13 @@ async def prepare_function_test(
     if not raw_inputs:
         inputs = None
     else:
-        inputs = celpy.json_to_cel(raw_inputs)
+        try:
+            inputs = celpy.json_to_cel(raw_inputs)
+        except ValueError as err:
+            return PermFail(
+                message=f"FunctionTest '{cache_key}' `spec.inputs` contains a value CEL can not represent ({err}).",
+                location=location,
+            )
         if not isinstance(inputs, celtypes.MapType):
             return PermFail(
                 message=f"FunctionTest '{cache_key}' `spec.inputs` ('{inputs}') must be an object.",
@@ -146,7 +152,13 @@ def _prepare_test_case(
     if not raw_overrides:
         overrides = None
     else:
-        overrides = celpy.json_to_cel(raw_overrides)
+        try:
+            overrides = celpy.json_to_cel(raw_overrides)
+        except ValueError as err:
+            return PermFail(
+                message=f"`{location}.inputOverrides` contains a value CEL can not represent ({err}).",
+                location=f"{location}.inputOverrides",
+            )
         if not isinstance(overrides, celtypes.MapType):
             return PermFail(
                 message=f"`{location}.inputOverrides` must be an object.",
@@ -231,9 +243,16 @@ def _prepare_test_case(
             return bad_assertions_failure
 
         expected_outcome_spec["assert"] = True
+        try:
+            expected_outcome = celpy.json_to_cel([expected_outcome_spec])
+        except ValueError as err:
+            return PermFail(
+                message=f"`{location}.expectOutcome` contains a value CEL can not represent ({err}).",
+                location=f"{location}.expectOutcome",
+            )
         assertion = structure.ExpectOutcome(
             predicate_to_koreo_result(
-                celpy.json_to_cel([expected_outcome_spec]),
+                expected_outcome,
                 location=f"{location}.expectOutcome",
             )
         )
